@@ -541,6 +541,71 @@ func monC02(x *Ctx) {
 		want := x.DumpStruct(probe, dumpOpt{NF: true})
 		if !reflect.DeepEqual(want, sM) {
 			x.Violate("from/wrong-value/"+t.leaf.Class, in, fmt.Sprintf("decoding the probe object differs from the probe struct at %v", DiffPaths(want, sM)), nil)
+			continue
+		}
+		// ... also when the struct read into already holds the same shape under OTHER map keys (a renamed key on
+		// refresh): the field corresponds to the attribute, so no entry the attribute lacks may stay behind
+		var tgt interface{}
+		func() {
+			defer func() { recover() }()
+			tgt = x.materialise(t, true)
+		}()
+		if tgt != nil && rekeyMaps(reflect.ValueOf(tgt)) > 0 {
+			x.Eval(1)
+			x.Count("reads-into-a-target-holding-other-map-keys", 1)
+			fR := x.CopyFrom(objM, tgt)
+			if fR.Panic != nil {
+				x.Violate(panicFP("CopyFrom", fR)+"/"+x.embedTypeClass(), in, "CopyFrom panicked reading a probe object into a filled target", map[string]interface{}{"panic": panicDetail(fR)})
+				continue
+			}
+			if sR := x.DumpStruct(tgt, dumpOpt{NF: true}); !reflect.DeepEqual(want, sR) {
+				x.Violate("from/stale-target/"+t.leaf.Class, in, fmt.Sprintf("decoding the probe object into a struct that held the same shape under other map keys differs from the probe struct at %v", DiffPaths(want, sR)),
+					map[string]interface{}{"want": want, "got": sR})
+			}
 		}
 	}
+}
+
+// rekeyMaps renames every key of every string-keyed map reachable from v (in place) and returns how many
+// non-empty maps it found.
+func rekeyMaps(v reflect.Value) int {
+	n := 0
+	switch v.Kind() {
+	case reflect.Ptr, reflect.Interface:
+		if !v.IsNil() {
+			n += rekeyMaps(v.Elem())
+		}
+	case reflect.Struct:
+		if v.Type() == timeType {
+			return 0
+		}
+		for i := 0; i < v.NumField(); i++ {
+			if v.Type().Field(i).PkgPath == "" {
+				n += rekeyMaps(v.Field(i))
+			}
+		}
+	case reflect.Slice:
+		if v.Type().Elem().Kind() == reflect.Uint8 {
+			return 0
+		}
+		for i := 0; i < v.Len(); i++ {
+			n += rekeyMaps(v.Index(i))
+		}
+	case reflect.Map:
+		if v.Type().Key().Kind() != reflect.String || v.Len() == 0 {
+			return 0
+		}
+		n++
+		for _, k := range v.MapKeys() {
+			val := v.MapIndex(k)
+			cp := reflect.New(v.Type().Elem()).Elem()
+			cp.Set(val)
+			n += rekeyMaps(cp)
+			v.SetMapIndex(k, reflect.Value{})
+			nk := reflect.New(v.Type().Key()).Elem()
+			nk.SetString("earlier-" + k.String())
+			v.SetMapIndex(nk, cp)
+		}
+	}
+	return n
 }
